@@ -233,6 +233,9 @@ def run_property(prop, tier, seed):
         res = D.run_workers(exe, prop, seed, total, chunk, timeout_per_chunk=tmo, extra_args=extra)
     sig = D.distinct_sigs(exe, res.sig_files)
     cov = native_coverage(prop, res, sig)
+    if prop in D.HUGE_PROFILES:
+        cov["multi_gib_episode"] = ("skipped: did not finish within its wall-clock allowance on this tree (slow, not judged)"
+                                    if res.huge_skipped else "ran (family %d)" % D.HUGE_FAMILY)
     D.cleanup_outs(res)
     if res.violation is not None:
         rc = finish_violation(prop, tier, seed, exe, res, t0, cov)
